@@ -377,7 +377,10 @@ def oracle_cache(case):
         require(np.abs(gs - p).max() <= tol_s, lambda: 'step %d (%s): cartesian_to_relative uses stale cell: got %r expected %r' % (step, k, gs, p))
         # inside() after every step of the history (any cached planes must follow origin and vectors alike)
         pin = np.array([[0.5, 0.5, 0.5], p, [0.25, 0.75, 0.5] + np.floor(p)], dtype=float)
-        clear = ~np.any((np.abs(pin) < 1e-6) | (np.abs(pin - 1) < 1e-6), axis=1)
+        # a face is resolved only to the rounding of |origin| in units of the cell (setters of different steps may
+        # combine a 1e-10 cell with an origin of 1e4: the points themselves are then not representable)
+        band = 1e-6 + 1e-12 * np.abs(o).max() * ninv
+        clear = ~np.any((np.abs(pin) < band) | (np.abs(pin - 1) < band), axis=1)
         exp_in = np.all((pin >= 0) & (pin <= 1), axis=1)
         got_in = np.asarray(B.inside(pin @ V + o))
         require(np.array_equal(got_in[clear], exp_in[clear]),
